@@ -658,10 +658,13 @@ func (c *Client) HandleInbound(data []byte, from net.Addr) (bool, error) {
 	//  - Non-STUN message from the STUN server
 
 	switch {
+	case proto.IsChannelData(data):
+		// Tested first: the payload of a ChannelData message is the application's and may carry
+		// the STUN magic cookie where a STUN header has it. A STUN message never looks like
+		// ChannelData (its first two bits are zero, a channel number starts with 01).
+		return true, c.handleChannelData(data)
 	case stun.IsMessage(data):
 		return true, c.handleSTUNMessage(data, from)
-	case proto.IsChannelData(data):
-		return true, c.handleChannelData(data)
 	case c.stunServerAddr != nil && from.String() == c.stunServerAddr.String():
 		// Received from STUN server but it is not a STUN message
 		return true, errNonSTUNMessage
